@@ -4,28 +4,31 @@
    statements ([clq_reach evs c] : the event list evs, executed from the constructor's state by the
    statement-granular transition function [clq_exec1] of model/CLQModel.v, ends in c).
 
-   FORM OF LINEARIZABILITY PROVED HERE: the linearisation-point form.  The model marks one step
-   of each call (ghost event [HLin] in the history [q_hist]):
+   FORMS OF LINEARIZABILITY PROVED HERE.
+   (A) Linearisation-point form.  The model marks one step of each call (ghost event [HLin] in
+   the history [q_hist]):
      Enqueue            its tail CAS  `atomic.CompareAndSwapPointer(&c.tail, tailPtr, newPtr)`
                         (proved to succeed always: [clq_tail_cas_succeeds]);
      Dequeue -> value   its successful head CAS `atomic.CompareAndSwapPointer(&c.head, headPtr, headNextPtr)`;
      Dequeue -> empty   the load `tailPtr := atomic.LoadPointer(&c.tail)` that returns the head it loaded before.
-   Theorems: (1) [clq_step_refines_fifo] every step either leaves the abstract queue [clq_abs]
-   (a function of the real shared state only: the values reached from head up to tail through
-   the next pointers) unchanged and is unmarked, or is a marked step and changes it exactly as
-   [fifo_spec] says, with the marked result; (2) [clq_linearizable] the marked steps in their
-   order replay through [fifo_spec] from the empty queue to the current abstract queue, and the
-   history of every goroutine is (Call o . Lin o r . Ret r)* + the call in flight: every
-   completed call has exactly ONE marked step, between its invocation and its response, for its
-   own operation, and returns the specification's result of that step; (3) [clq_history_faithful]
-   the Call / Ret events of the ghost history are exactly the invocations and responses of the
-   run.  The textbook (permutation) definition follows from (1)-(3) by the standard argument
-   (order the calls by their marked steps; a marked step lies inside its call's interval, hence
-   real-time order is respected); see [clq_linearizable_textbook] at the end of this file if present,
-   otherwise that last step is NOT mechanised.
+   (1) [clq_step_refines_fifo] every step either leaves the abstract queue [clq_abs] (a function
+   of the real shared state only: the values reached from head up to tail through the next
+   pointers) unchanged and is unmarked, or is a marked step and changes it exactly as [fifo_spec]
+   says, with the marked result; (2) [clq_linearizable] the marked steps in their order replay
+   through [fifo_spec] from the empty queue to the current abstract queue, and the history of every
+   goroutine is (Call o . Lin o r . Ret r)* + the call in flight: every completed call has exactly
+   ONE marked step, between its invocation and its response, for its own operation, and returns the
+   specification's result of that step; (3) [clq_history_faithful] the Call / Ret events of the
+   ghost history are exactly the invocations and responses of the run.
+   (B) Textbook (Herlihy-Wing, permutation) form, mechanised in proof/CLQLinz.v from (A):
+   [clq_linearizable_textbook] for the history of invocations and responses [vis (q_hist c)] of every
+   reachable configuration there is a sequential history S (operations identified by (goroutine,
+   k-th call)) without repetition, containing only invoked operations with their arguments and all
+   completed operations with the results they returned, legal for the FIFO specification, in which a
+   precedes b whenever a's response precedes b's invocation ([textbook_linearizable]).
 
-   Only statements here; every proof is `exact <lemma>` from proof/CLQProof3.v. *)
-From Ekit Require Import Common Conc CLQModel CLQProof CLQProof2 CLQProof3.
+   Only statements here; every proof is `exact <lemma>` from proof/CLQProof3.v / CLQLinz.v. *)
+From Ekit Require Import Common Conc CLQModel CLQProof CLQProof2 CLQProof3 CLQLinz.
 
 (* ---- structure (DESIGN 12.5): head <= tail <= last <= tail + 1 on the chain of linked nodes ---- *)
 Theorem clq_shape_invariant : forall evs c,
@@ -100,6 +103,18 @@ Theorem clq_linearizable : forall evs c,
   (forall t, lookup t (q_thr c) = None -> phase t (q_hist c) = Some PIdle).
 Proof. exact reach_lin_form. Qed.
 Print Assumptions clq_linearizable.
+
+(* ---- linearizability, textbook form ---- *)
+Theorem clq_linearizable_textbook : forall evs c,
+  clq_reach evs c -> textbook_linearizable (vis (q_hist c)).
+Proof. exact reach_textbook. Qed.
+Print Assumptions clq_linearizable_textbook.
+
+(* the definition is not vacuous: a Dequeue returning 5 from the never-filled queue is rejected *)
+Theorem clq_textbook_rejects_invented_value :
+  ~ textbook_linearizable [HRet 1%nat (RDeq (Some 5)); HCall 1%nat OpDeq].
+Proof. exact textbook_rejects_invented_value. Qed.
+Print Assumptions clq_textbook_rejects_invented_value.
 
 (* ---- non-vacuity ---- *)
 Local Open Scope nat_scope.
